@@ -1510,6 +1510,10 @@ func (p *Parser) parseIndex(leftNode ast.Node) ast.Node {
 	if !p.peekTokenIs(token.COLON) {
 		p.nextToken() // move to the first index
 		firstIndex = p.parseExpression(LOWEST)
+		if firstIndex == nil {
+			p.setTokenError(p.curToken, "invalid index expression")
+			return nil
+		}
 		if p.peekTokenIs(token.RBRACKET) {
 			p.nextToken() // move to the "]"
 			return ast.NewIndex(indexToken, left, firstIndex)
@@ -1523,6 +1527,10 @@ func (p *Parser) parseIndex(leftNode ast.Node) ast.Node {
 		}
 		p.nextToken() // move to the second index
 		secondIndex = p.parseExpression(LOWEST)
+		if secondIndex == nil {
+			p.setTokenError(p.curToken, "invalid slice expression")
+			return nil
+		}
 	}
 	if !p.expectPeek("an index expression", token.RBRACKET) {
 		return nil
